@@ -18,7 +18,9 @@ META = {
     "normal end (C14_full): every job of every node not downstream of a failure was dispatched and has a result on disk, "
     "nodes downstream of a failure never got a job, the submission fails iff some job failed and its error then lists exactly "
     "the failed jobs.  Full after the D10 repair (update_status guards job.done in the running loop); C14_regression_D10 "
-    "replays the old witness in the model.  C14_dependents_never_run_interleaved / C14_full_interleaved are the same statements for "
+    "replays the old witness in the model.  In half of the generated cases (and in a corpus line) the nodes with failing jobs hold a "
+    "multi-element numpy array input, because the error report formats the repr of every failed job's task (regression of the "
+    "repaired finding D74: an array-valued `value != default` in Task.__repr__ replaced the error naming the failed jobs).  C14_dependents_never_run_interleaved / C14_full_interleaved are the same statements for "
     "the finer semantics in which bodies start, finish and fail before every node.done / p.done read of a poll (Sched/Interleaved.lean; the "
     "semantics with atomic polls is its special case roundI_nil, and C14_race_instance is the gated witness of the check as a run of it); with the current order of "
     "tests no hypothesis on the freshness of the tables is needed (nodeDecide_spec).  The repaired defect D64 (a job failing "
@@ -75,15 +77,26 @@ def spec(case, obs):
 
 def gen_cases(rng, n, forced):
     cases = []
-    for _ in range(n):
+    for i in range(n):
         c = sched.gen_graph(rng)
         tags = sched.all_tags(c)
         c["k"] = rng.choice([None, None, 2, 3])
         nf = rng.choice([1, 1, 1, 2, 2, 3])
         c["fail"] = rng.sample(tags, min(nf, len(tags)))
         c["policy"] = {"seed": rng.randrange(10**6), "style": rng.choice(forced)}
+        if i % 2 == 0:
+            array_inputs(c)
         cases.append(c)
     return cases
+
+
+def array_inputs(c):
+    """the nodes with a failing job hold a multi-element numpy array input: the error report formats `{job.task!r}` of
+    every failed job, and `Task.__repr__` compares each value with the field default (repaired finding D74: the
+    array-valued `!=` in a boolean context raised and replaced the error that names the failed jobs)"""
+    for nd in c["nodes"]:
+        if any(t in c["fail"] for t in sched.node_jobs(c)[nd["name"]]) and nd.get("emit") is None:
+            nd["arr"] = True
 
 
 def exhaustive_fail_sets(rng, n_graphs):
@@ -98,6 +111,9 @@ def exhaustive_fail_sets(rng, n_graphs):
             for fs in itertools.combinations(tags, r):
                 c = dict(g)
                 c.update({"k": None, "fail": list(fs), "policy": {"seed": rng.randrange(10**6), "style": "failslast"}})
+                if len(cases) % 3 == 0:
+                    c["nodes"] = [dict(nd) for nd in c["nodes"]]
+                    array_inputs(c)
                 cases.append(c)
     return cases[: n_graphs * 12]
 
